@@ -12,7 +12,7 @@ Local Open Scope list_scope.
    (Spec/SchemaSpec.satb with the mode md_of st). *)
 Theorem C01_visit_iff_sat :
   forall rc rm fo st s v,
-    g_all2 rc rm fo (md_of st) (st_usenum st) s = true -> vg v = true -> g_div s v = true ->
+    g_all2 rc rm fo (md_of st) (st_usenum st) s = true -> vg v = true ->
     is_panic (visit rc rm fo st s v) = false /\
     accepts (visit rc rm fo st s v) = satb rc rm fo (md_of st) s v.
 Proof. intros rc rm fo st s v. exact (main_visit rc rm fo st s v). Qed.
@@ -37,12 +37,13 @@ Theorem C01_refuted_isempty_shortcut_null_member :
   accepts (visit rc1 rm1 fo0 st_default s (JObj [("a", JNull)])) = true /\
   satb rc1 rm1 fo0 md_plain s (JObj [("a", JNull)]) = false.
 Proof. vm_compute. split; reflexivity. Qed.
-(* class 2: exclusiveMinimum without minimum panics where the spec accepts *)
-Theorem C01_refuted_exclusive_without_bound :
+(* formerly class 2 (repaired in /repo): exclusiveMinimum without minimum constrains nothing *)
+Example C01_exclusive_without_bound_accepted :
   let c := mkCore None [] false false false false "" false true false None None None 0 None "" 0 None [] 0 None None in
   let s := Sch c None [] [] [] None [] None in
-  is_panic (visit rc1 rm1 fo0 st_default s (JNum 1)) = true /\ satb rc1 rm1 fo0 md_plain s (JNum 1) = true.
-Proof. vm_compute. split; reflexivity. Qed.
+  g_all2 rc1 rm1 fo0 md_plain false s = true /\
+  accepts (visit rc1 rm1 fo0 st_default s (JNum 1)) = true /\ satb rc1 rm1 fo0 md_plain s (JNum 1) = true.
+Proof. vm_compute. repeat split. Qed.
 (* class 3: [0,-0] passes uniqueItems (text comparison) although 0 = -0 *)
 Theorem C01_refuted_unique_negzero :
   let c := mkCore None [] false false false false "" true false false None None None 0 None "" 0 None [] 0 None None in
@@ -56,12 +57,14 @@ Theorem C01_refuted_huge_bound :
   let s := Sch c None [] [] [] None [] None in
   accepts (visit rc1 rm1 fo0 st_default s (JStr "a")) = true /\ satb rc1 rm1 fo0 md_plain s (JStr "a") = false.
 Proof. vm_compute. split; reflexivity. Qed.
-(* class 5: multipleOf 0 against 0 panics (big.NewFloat(NaN)) *)
-Theorem C01_refuted_multipleof_zero :
+(* formerly class 5 (repaired in /repo): 0 against multipleOf 0 is rejected (NaN is no integer) *)
+Example C01_multipleof_zero_rejected :
   let c := mkCore None [] false false false false "" false false false None None (Some 0%float) 0 None "" 0 None [] 0 None None in
   let s := Sch c None [] [] [] None [] None in
-  is_panic (visit rc1 rm1 fo0 st_default s (JNum 0)) = true.
-Proof. vm_compute. reflexivity. Qed.
+  g_all2 rc1 rm1 fo0 md_plain false s = true /\
+  accepts (visit rc1 rm1 fo0 st_default s (JNum 0)) = false /\ is_panic (visit rc1 rm1 fo0 st_default s (JNum 0)) = false /\
+  satb rc1 rm1 fo0 md_plain s (JNum 0) = false.
+Proof. vm_compute. repeat split. Qed.
 (* formerly class 6 (repaired in /repo, "fix: a pattern that does not compile ..."): an uncompilable
    pattern is inside the guards now - it is rejected in every mode, without a panic *)
 Example C01_bad_pattern_rejected :
@@ -86,8 +89,8 @@ Definition ex_good : json := JObj [("l", JArr [JNum 2; JNum 4]); ("n", JNum 6); 
 Definition ex_bad : json := JObj [("l", JArr [JNum 2; JNum 2]); ("n", JNum 6)].
 Example C01_hyps_satisfiable :
   g_all2 rc1 (fun p s => String.prefix "a" s) fo0 md_plain false ex_schema = true /\
-  g_all2 rc1 (fun p s => String.prefix "a" s) fo0 (md_of st_multi_) true ex_schema = true /\ vg ex_good = true /\ g_div ex_schema ex_good = true /\
-  vg ex_bad = true /\ g_div ex_schema ex_bad = true /\
+  g_all2 rc1 (fun p s => String.prefix "a" s) fo0 (md_of st_multi_) true ex_schema = true /\ vg ex_good = true /\
+  vg ex_bad = true /\
   satb rc1 (fun p s => String.prefix "a" s) fo0 md_plain ex_schema ex_good = true /\
   satb rc1 (fun p s => String.prefix "a" s) fo0 md_plain ex_schema ex_bad = false.
 Proof. vm_compute. repeat split; reflexivity. Qed.
